@@ -388,8 +388,11 @@ package bkl
 //@   property C09, C12
 //@   uses rappLen
 //@   ensures (=> (not (isErr err)) (= (rllen docs) (rllen ecs)))
+//@   ensures (=> (not (isErr err)) (forall ((j String)) (=> (not (= (select (mapOf rs) j) VAbsent)) ((_ is VInt) (select (mapOf rs) j)))))   [C12]
+//@   propagates all   [C12] [C08]
 //@   loop 2
 //@     invariant (= (rllen docs) (rllen ecs))
+//@     invariant (forall ((j String)) (=> (select visited j) ((_ is VInt) (select (mapOf rs) j))))          [C12]
 //@   loop 3
 //@     invariant (= (rllen tmpDocs) (rllen tmpECs))
 
